@@ -77,6 +77,30 @@ def toy_generator(curve, G, bf=0):
     return g
 
 
+_DECOY = {}
+
+
+def decoy_same_point_other_curve(p, a, G):
+    key = (p, a, tuple(G))
+    if key not in _DECOY:
+        x, y = G
+        a2 = (a + 1) % p
+        b2 = (y * y - x * x * x - a2 * x) % p
+        if (4 * a2 ** 3 + 27 * b2 * b2) % p == 0:
+            a2 = (a + 2) % p
+            b2 = (y * y - x * x * x - a2 * x) % p
+        # order of G on that curve, by repeated addition (reference arithmetic)
+        k, P = 1, (x, y)
+        while P is not None and k < 4 * p:
+            P = ec.add(P, (x, y), p, a2)
+            k += 1
+        _DECOY[key] = toy_generator([p, a2, b2, k], [x, y], 0) if P is None else None
+    g = _DECOY[key]
+    if g is not None:
+        g * 3
+    return g
+
+
 def toy_curve(curve, with_order=True):
     from pycoin.ecdsa.Curve import Curve
     p, a, b, n = curve
@@ -374,6 +398,8 @@ class ToyGMul(ToyBase):
         # a second Generator on the same curve with ANOTHER base point is built first: tables derived from a base
         # point must not leak between generator objects
         _try(toy_generator, case["curve"], list(ec.mul_repeated(2, G, p, a, n)), 0)
+        # ... and a Generator with the SAME base point coordinates on ANOTHER curve (same p, a+1, b chosen so that G is on it)
+        _try(decoy_same_point_other_curve, p, a, G)
         ok, g = _try(toy_generator, case["curve"], case["G"], bf)
         if not ok:
             return BAD("exception", "Generator constructed", g, clause="construct")
